@@ -1,7 +1,458 @@
-//! C11 — harness not built yet.
+//! C11 — loading a subset of word fields never changes the fields that were requested.
+//!
+//! (a) word level: generated system / user dictionaries (and the same bytes re-labelled as a format without synonym
+//!     ids); for a word and ALL 1024 requested subsets s the implementation's `LexiconSet::get_word_info_subset(id,
+//!     s.normalize())` raw result is compared with the Coq model's, and every requested accessor with the full load.
+//! (b) tokenizer level (implementation-side oracle): analyses with a random subset, modes and both orders of
+//!     set_mode / set_subset against the full-field analysis: surfaces partition the input; boundaries and word ids
+//!     equal when no path-rewrite plugin is configured or the subset holds surface, POS and normalised form; every
+//!     requested accessor equal.  The subset the tokenizer ends up with is compared with the model's.
+use crate::c05::{self, cblob, ctxt, Readback};
 use crate::common::*;
+use serde_json::{json, Value};
+use std::collections::HashMap;
+use sudachi::analysis::stateful_tokenizer::StatefulTokenizer;
+use sudachi::analysis::stateless_tokenizer::DictionaryAccess;
+use sudachi::analysis::Mode;
+use sudachi::config::{Config, ConfigBuilder};
+use sudachi::dic::dictionary::JapaneseDictionary;
+use sudachi::dic::lexicon::word_infos::WordInfoData;
+use sudachi::dic::subset::InfoSubset;
+use sudachi::dic::word_id::WordId;
+use sudachi::dic::{DictionaryLoader, LoadedDictionary};
 
-pub fn run(_args: &Args) {
-    eprintln!("no harness for C11 yet");
-    std::process::exit(2);
+fn raw_of(d: &WordInfoData) -> Readback {
+    Readback::Ok {
+        surface: d.surface.clone(),
+        hwlen: d.head_word_length as usize,
+        pos: d.pos_id,
+        norm: d.normalized_form.clone(),
+        dfwi: d.dictionary_form_word_id,
+        dicform: d.dictionary_form.clone(),
+        reading: d.reading_form.clone(),
+        a: d.a_unit_split.iter().map(|w| w.as_raw()).collect(),
+        b: d.b_unit_split.iter().map(|w| w.as_raw()).collect(),
+        ws: d.word_structure.iter().map(|w| w.as_raw()).collect(),
+        syn: d.synonym_group_ids.clone(),
+        params: (0, 0, 0),
+    }
+}
+
+/// accessor values of the flags in `s` (bit order of InfoSubset), as comparable strings
+fn accessors(d: &D2, s: u32) -> Vec<String> {
+    let mut v = vec![];
+    let w = &d.0;
+    if s & 1 != 0 {
+        v.push(format!("surface={}", w.surface()));
+    }
+    if s & 2 != 0 {
+        v.push(format!("hwlen={}", w.head_word_length()));
+    }
+    if s & 4 != 0 {
+        v.push(format!("pos={}", w.pos_id()));
+    }
+    if s & 8 != 0 {
+        v.push(format!("norm={}", w.normalized_form()));
+    }
+    if s & 16 != 0 {
+        v.push(format!("dfwi={} dicform={}", w.dictionary_form_word_id(), w.dictionary_form()));
+    }
+    if s & 32 != 0 {
+        v.push(format!("reading={}", w.reading_form()));
+    }
+    if s & 64 != 0 {
+        v.push(format!("a={:?}", w.a_unit_split()));
+    }
+    if s & 128 != 0 {
+        v.push(format!("b={:?}", w.b_unit_split()));
+    }
+    if s & 256 != 0 {
+        v.push(format!("ws={:?}", w.word_structure()));
+    }
+    if s & 512 != 0 {
+        v.push(format!("syn={:?}", w.synonym_group_ids()));
+    }
+    v
+}
+struct D2(sudachi::dic::lexicon::word_infos::WordInfo);
+
+fn get<D: DictionaryAccess>(d: &D, wid: WordId, s: InfoSubset) -> Result<sudachi::dic::lexicon::word_infos::WordInfo, String> {
+    match catch(|| d.lexicon().get_word_info_subset(wid, s).map_err(|e| format!("{:?}", e))) {
+        Ok(r) => r,
+        Err(p) => Err(format!("panic {}", p)),
+    }
+}
+
+#[allow(clippy::too_many_arguments)]
+fn word_case<D: DictionaryAccess>(
+    sink: &mut Sink,
+    d: &D,
+    bytes: &[u8],
+    has_syn: bool,
+    dic: u8,
+    nsys: usize,
+    wid: u32,
+    subsets: &[u32],
+    desc: Value,
+) {
+    let id = WordId::new(dic, wid);
+    let full = match get(d, id, InfoSubset::all()) {
+        Ok(w) => w,
+        Err(e) => {
+            let c = sink.case_rust_only(desc, false);
+            sink.fail(c, &format!("full load of word ({}, {}) failed: {}", dic, wid, e), "");
+            return;
+        }
+    };
+    let full2 = D2(full.clone());
+    let full_raw = raw_of(full.borrow_data());
+    let mut distinct: Vec<Readback> = vec![];
+    let mut index: HashMap<String, usize> = HashMap::new();
+    let mut pairs = vec![];
+    let mut bad: Option<String> = None;
+    for &s in subsets {
+        let req = InfoSubset::from_bits_truncate(s);
+        let loaded = req.normalize();
+        let r = match get(d, id, loaded) {
+            Ok(w) => {
+                let got = accessors(&D2(w.clone()), s);
+                let want = accessors(&full2, s);
+                if got != want && bad.is_none() {
+                    bad = Some(format!(
+                        "word ({}, {}), requested subset {:#b} (loaded {:#b}): accessors {:?}, after a full load {:?}",
+                        dic, wid, s, loaded.bits(), got, want
+                    ));
+                }
+                raw_of(w.borrow_data())
+            }
+            Err(e) => {
+                if bad.is_none() {
+                    bad = Some(format!("word ({}, {}), requested subset {:#b}: {}", dic, wid, s, e));
+                }
+                Readback::Fail(e)
+            }
+        };
+        let key = r.coq();
+        let k = *index.entry(key).or_insert_with(|| {
+            distinct.push(r.clone());
+            distinct.len() - 1
+        });
+        pairs.push((s, k));
+    }
+    let sec = match c05::sections(bytes) {
+        Some(s) => s,
+        None => return,
+    };
+    let term = format!(
+        "check_c11_word {} {} {} {} {} {} {} {} {} {}",
+        cnu(sec.words_offset),
+        cblob(sec.words),
+        cbool(has_syn),
+        cn(dic),
+        cnu(nsys),
+        cnu(nsys),
+        cn(wid),
+        full_raw.coq(),
+        clist(distinct.iter().map(|r| r.coq())),
+        clist(pairs.iter().map(|(s, k)| format!("({}, {})", cn(*s), cnu(*k))))
+    );
+    sink.tag(if has_syn { "dictionary_with_synonym_ids" } else { "dictionary_without_synonym_ids" });
+    sink.tag(if dic == 0 { "system_word" } else { "user_word" });
+    sink.tag(if subsets.len() == 1024 { "all_1024_subsets" } else { "sampled_subsets" });
+    if let Readback::Ok { dfwi, .. } = &full_raw {
+        sink.tag(if *dfwi < 0 || *dfwi as u32 == wid { "own_dictionary_form" } else { "dictionary_form_elsewhere" });
+    }
+    let c = sink.case(term, desc, true);
+    if let Some(b) = bad {
+        sink.fail(c, &b, "");
+    }
+}
+
+fn all_subsets() -> Vec<u32> {
+    (0..1024).collect()
+}
+fn sampled(rng: &mut Rng, n: usize) -> Vec<u32> {
+    let mut v: Vec<u32> = vec![0, 1, 16, 8, 32, 64, 128, 512, 1023, 16 | 512];
+    for _ in 0..n {
+        v.push(rng.below(1024) as u32);
+    }
+    v
+}
+
+fn word_level(sink: &mut Sink, rng: &mut Rng, n_dicts: usize, exhaustive_words: usize) {
+    let mut exhaustive_left = exhaustive_words;
+    for k in 0..n_dicts {
+        let st = rng.next();
+        let user = k % 2 == 1;
+        let mut r = Rng(st);
+        let mut scratch = Sink::new("C11", &sink.dir.join("scratch"), &[], 0, "quick");
+        let c = c05::gen_case(&mut r, &mut scratch, user, false, false);
+        let sys_bytes = match c05::compile_system(&c.sys_csv, &c.matrix_text, c.time, &c.descr) {
+            Ok(b) => b,
+            Err(_) => continue,
+        };
+        let loaded: LoadedDictionary = match DictionaryLoader::read_system_dictionary(&sys_bytes).ok().and_then(|d| d.to_loaded()) {
+            Some(l) => l,
+            None => continue,
+        };
+        let nsys = loaded.grammar.pos_list.len();
+        let desc = |wid: usize, kind: &str| json!({"kind": "c11-word", "rng": st, "user": user, "word": wid, "variant": kind, "csv": if c.sys_csv.len() < 1200 { c.sys_csv.clone() } else { String::new() }, "user_csv": if c.user_csv.len() < 1200 { c.user_csv.clone() } else { String::new() }});
+        if !user {
+            for wid in 0..c.sys.rows.len() {
+                let subs = if exhaustive_left > 0 && wid < 2 {
+                    exhaustive_left -= 1;
+                    all_subsets()
+                } else {
+                    sampled(rng, 30)
+                };
+                word_case(sink, &loaded, &sys_bytes, true, 0, nsys, wid as u32, &subs, desc(wid, "system"));
+            }
+            // the same dictionary labelled as the first system format: no synonym group ids
+            let mut v1 = sys_bytes.clone();
+            v1[..8].copy_from_slice(&0x7366d3f18bd111e7u64.to_le_bytes());
+            if let Some(l1) = DictionaryLoader::read_system_dictionary(&v1).ok().and_then(|d| d.to_loaded()) {
+                for wid in 0..c.sys.rows.len().min(2) {
+                    let subs = if exhaustive_left > 0 && wid == 0 {
+                        exhaustive_left -= 1;
+                        all_subsets()
+                    } else {
+                        sampled(rng, 30)
+                    };
+                    word_case(sink, &l1, &v1, false, 0, nsys, wid as u32, &subs, desc(wid, "system-v1"));
+                }
+            }
+        } else if let Some(u) = &c.user {
+            let ub = match c05::compile_user(&loaded, &c.user_csv, c.time, &c.descr) {
+                Ok(b) => b,
+                Err(_) => continue,
+            };
+            let jd = match c05::load_with_user(sys_bytes.clone(), vec![ub.clone()]) {
+                Ok(d) => d,
+                Err(_) => continue,
+            };
+            for wid in 0..u.rows.len() {
+                let subs = if exhaustive_left > 0 && wid < 2 {
+                    exhaustive_left -= 1;
+                    all_subsets()
+                } else {
+                    sampled(rng, 30)
+                };
+                word_case(sink, &jd, &ub, true, 1, nsys, wid as u32, &subs, desc(wid, "user"));
+            }
+        }
+    }
+}
+
+// ---------------------------------------------------------------- tokenizer level
+fn config(rewrite: bool) -> Config {
+    let res = c05::resources();
+    let j = json!({
+        "path": res,
+        "systemDict": "system.dic.test",
+        "userDict": ["user.dic.test"],
+        "characterDefinitionFile": "char.def",
+        "inputTextPlugin": [{"class": "com.worksap.nlp.sudachi.DefaultInputTextPlugin"}],
+        "oovProviderPlugin": [{"class": "com.worksap.nlp.sudachi.SimpleOovPlugin", "oovPOS": ["名詞", "普通名詞", "一般", "*", "*", "*"], "leftId": 8, "rightId": 8, "cost": 6000}],
+        "pathRewritePlugin": if rewrite { json!([
+            {"class": "com.worksap.nlp.sudachi.JoinNumericPlugin", "enableNormalize": true},
+            {"class": "com.worksap.nlp.sudachi.JoinKatakanaOovPlugin", "oovPOS": ["名詞", "普通名詞", "一般", "*", "*", "*"], "minLength": 3}]) } else { json!([]) }
+    });
+    ConfigBuilder::from_bytes(j.to_string().as_bytes()).unwrap().build()
+}
+fn mode_of(k: u64) -> Mode {
+    match k {
+        0 => Mode::A,
+        1 => Mode::B,
+        _ => Mode::C,
+    }
+}
+#[derive(PartialEq, Debug, Clone)]
+struct Tok {
+    begin: usize,
+    end: usize,
+    surface: String,
+    wid: u32,
+    acc: Vec<String>,
+}
+/// analyse; `order`: 0 = set_mode then set_subset, 1 = set_subset then set_mode; None subset = all fields
+fn analyse(dict: &JapaneseDictionary, text: &str, m0: Mode, m: Mode, subset: Option<u32>, order: u8, req: u32) -> Result<(Vec<Tok>, u32), String> {
+    match catch(|| {
+        let mut tok = StatefulTokenizer::new(dict, m0);
+        match subset {
+            Some(s) => {
+                let sub = InfoSubset::from_bits_truncate(s);
+                if order == 0 {
+                    tok.set_mode(m);
+                    tok.set_subset(sub);
+                } else {
+                    tok.set_subset(sub);
+                    tok.set_mode(m);
+                }
+            }
+            None => {
+                tok.set_mode(m);
+            }
+        }
+        // read the tokenizer's subset back (set_subset returns the previous one) and restore it unchanged
+        let cur = tok.set_subset(InfoSubset::all());
+        let cur_bits = cur.bits();
+        // restoring through set_subset would re-normalise; analyse with a fresh tokenizer configured the same way
+        let mut tok = StatefulTokenizer::new(dict, m0);
+        match subset {
+            Some(s) => {
+                let sub = InfoSubset::from_bits_truncate(s);
+                if order == 0 {
+                    tok.set_mode(m);
+                    tok.set_subset(sub);
+                } else {
+                    tok.set_subset(sub);
+                    tok.set_mode(m);
+                }
+            }
+            None => {
+                tok.set_mode(m);
+            }
+        }
+        tok.reset().push_str(text);
+        tok.do_tokenize().map_err(|e| format!("{:?}", e))?;
+        let ml = tok.into_morpheme_list().map_err(|e| format!("{:?}", e))?;
+        let mut out = vec![];
+        for i in 0..ml.len() {
+            let mo = ml.get(i);
+            out.push(Tok {
+                begin: mo.begin(),
+                end: mo.end(),
+                surface: mo.surface().to_string(),
+                wid: mo.word_id().as_raw(),
+                acc: accessors(&D2(mo.get_word_info().clone()), req & !1 & !2),
+            });
+        }
+        Ok::<(Vec<Tok>, u32), String>((out, cur_bits))
+    }) {
+        Ok(r) => r,
+        Err(p) => Err(format!("panic {}", p)),
+    }
+}
+
+fn tokenizer_level(sink: &mut Sink, rng: &mut Rng, n: usize) {
+    let dicts: Vec<(bool, JapaneseDictionary)> = [false, true]
+        .iter()
+        .filter_map(|rw| JapaneseDictionary::from_cfg(&config(*rw)).ok().map(|d| (*rw, d)))
+        .collect();
+    if dicts.len() != 2 {
+        let c = sink.case_rust_only(json!({"kind": "c11-tok-setup"}), false);
+        sink.fail(c, "cannot load the shipped test dictionaries", "");
+        return;
+    }
+    let pieces = ["東京都", "京都", "東京", "に", "行く", "行った", "高輪ゲートウェイ駅", "特急はくたか", "いく", "いった", "123", "三千円", "アイウエオ", "abc", "ｱｲｳ", " ", "。", "ぴらる", "魔法", "東", "都", "くに", "東京府", "ａ"];
+    for k in 0..n {
+        let (rewrite, dict) = &dicts[k % 2];
+        let np = 1 + rng.below(4) as usize;
+        let text: String = (0..np).map(|_| *rng.pick(&pieces)).collect();
+        let s = match rng.below(6) {
+            0 => 0,
+            1 => 16,
+            2 => 1 | 4 | 8,
+            _ => rng.below(1024) as u32,
+        };
+        let (m0, m) = (rng.below(3), rng.below(3));
+        let desc = json!({"kind": "c11-tok", "text": text, "subset": s, "m0": m0, "m": m, "rewrite": rewrite});
+        let full = analyse(dict, &text, mode_of(m0), mode_of(m), None, 0, s);
+        let r0 = analyse(dict, &text, mode_of(m0), mode_of(m), Some(s), 0, s);
+        let r1 = analyse(dict, &text, mode_of(m0), mode_of(m), Some(s), 1, s);
+        let (full, r0, r1) = match (full, r0, r1) {
+            (Ok(a), Ok(b), Ok(c)) => (a, b, c),
+            (a, b, c) => {
+                // an analysis that fails with all fields fails for reasons outside C11; one that fails only with a subset is ours
+                let c_id = sink.case_rust_only(desc, false);
+                if a.is_ok() {
+                    sink.fail(c_id, &format!("analysis fails only when a subset is loaded: {:?} / {:?}", b.err(), c.err()), "");
+                }
+                continue;
+            }
+        };
+        let term = format!("check_c11_order {} {} {} {} {}", cn(m0), cn(m), cn(s), cn(r0.1), cn(r1.1));
+        let mut bad: Option<String> = None;
+        let same_needed = !*rewrite || (s & 13) == 13;
+        for (name, r) in [("set_mode;set_subset", &r0.0), ("set_subset;set_mode", &r1.0)] {
+            let cat: String = r.iter().map(|t| t.surface.as_str()).collect();
+            let contiguous = r.windows(2).all(|w| w[0].end == w[1].begin) && r.first().map(|t| t.begin == 0).unwrap_or(text.is_empty()) && r.last().map(|t| t.end == text.len()).unwrap_or(true);
+            if cat != text || !contiguous {
+                bad = Some(format!("{}: surfaces {:?} do not partition {:?}", name, r.iter().map(|t| &t.surface).collect::<Vec<_>>(), text));
+            }
+            if same_needed {
+                let b1: Vec<_> = r.iter().map(|t| (t.begin, t.end, t.wid)).collect();
+                let b2: Vec<_> = full.0.iter().map(|t| (t.begin, t.end, t.wid)).collect();
+                if b1 != b2 {
+                    bad = Some(format!("{}: boundaries / word ids {:?}, full-field analysis {:?}", name, b1, b2));
+                } else {
+                    for (x, y) in r.iter().zip(full.0.iter()) {
+                        if x.acc != y.acc && x.wid >> 28 != 0xf {
+                            bad = Some(format!("{}: token {:?}: requested accessors {:?}, full-field analysis {:?}", name, x.surface, x.acc, y.acc));
+                        }
+                    }
+                }
+            }
+        }
+        sink.tag(if *rewrite { "tok_with_path_rewrite" } else { "tok_without_path_rewrite" });
+        sink.tag(if same_needed { "tok_boundaries_compared" } else { "tok_partition_only" });
+        let c_id = sink.case(term, desc, true);
+        if let Some(b) = bad {
+            sink.fail(c_id, &b, "");
+        }
+    }
+}
+
+pub fn run(args: &Args) {
+    let mut sink = Sink::new("C11", &args.out, &["Model.Codec", "Model.CodecIO", "Model.CodecCheck"], args.seed, &args.tier);
+    sink.shard_size = 12;
+    sink.rule("(a) words of generated system and user dictionaries (strings across the 127/128 prefix boundary, astral characters, forms empty / equal / different, arrays of 0..127 ids, own and foreign dictionary forms, with synonym ids and re-labelled as the format without) x ALL 1024 requested subsets for some words and 40 sampled subsets (always incl. {}, {SURFACE}, {DIC_FORM_WORD_ID}, {NORMALIZED_FORM}, {READING_FORM}, splits, all) for the others: raw WordInfoData of get_word_info_subset(normalize s) vs model, requested accessors vs full load; (b) analyses of texts over the shipped test dictionaries (system+user) with/without path-rewrite plugins x random subset x initial mode x mode x both orders of set_mode/set_subset vs the full-field analysis, and the tokenizer's resulting subset vs model; every case non-trivial; distinct by generated Coq term");
+    let mut rng = Rng::new(args.seed);
+    if let Some(p) = &args.replay {
+        let v: Value = serde_json::from_str(&std::fs::read_to_string(p).unwrap()).unwrap();
+        let case = &v["case"];
+        if case["kind"] == "c11-tok" {
+            let rw = case["rewrite"].as_bool().unwrap();
+            let dict = JapaneseDictionary::from_cfg(&config(rw)).unwrap();
+            let (text, s, m0, m) = (case["text"].as_str().unwrap(), case["subset"].as_u64().unwrap() as u32, case["m0"].as_u64().unwrap(), case["m"].as_u64().unwrap());
+            println!("text {:?} subset {:#b} initial mode {} mode {} path-rewrite plugins {}", text, s, m0, m, rw);
+            println!("full fields        : {:?}", analyse(&dict, text, mode_of(m0), mode_of(m), None, 0, s));
+            println!("set_mode;set_subset: {:?}", analyse(&dict, text, mode_of(m0), mode_of(m), Some(s), 0, s));
+            println!("set_subset;set_mode: {:?}", analyse(&dict, text, mode_of(m0), mode_of(m), Some(s), 1, s));
+        } else if case["kind"] == "c11-word" {
+            // regenerate the dictionary from the recorded generator state and show the word for the subsets that differ
+            let st = case["rng"].as_u64().unwrap();
+            let user = case["user"].as_bool().unwrap();
+            let mut r = Rng(st);
+            let mut scratch = Sink::new("C11", &args.out.join("scratch"), &[], 0, "quick");
+            let c = c05::gen_case(&mut r, &mut scratch, user, false, false);
+            println!("system csv:\n{}user csv:\n{}", c.sys_csv, c.user_csv);
+            let sys_bytes = c05::compile_system(&c.sys_csv, &c.matrix_text, c.time, &c.descr).unwrap();
+            let loaded = DictionaryLoader::read_system_dictionary(&sys_bytes).unwrap().to_loaded().unwrap();
+            let wid = case["word"].as_u64().unwrap() as u32;
+            let show = |d: &dyn Fn(InfoSubset) -> Result<sudachi::dic::lexicon::word_infos::WordInfo, String>| {
+                let full = d(InfoSubset::all());
+                println!("full load: {:?}", full.as_ref().map(|w| accessors(&D2(w.clone()), 1023)));
+                for s in 0..1024u32 {
+                    let got = d(InfoSubset::from_bits_truncate(s).normalize()).map(|w| accessors(&D2(w), s));
+                    let want = full.clone().map(|w| accessors(&D2(w), s));
+                    if got != want {
+                        println!("subset {:#012b}: {:?}   full: {:?}", s, got, want);
+                    }
+                }
+            };
+            if user {
+                let ub = c05::compile_user(&loaded, &c.user_csv, c.time, &c.descr).unwrap();
+                let jd = c05::load_with_user(sys_bytes.clone(), vec![ub]).unwrap();
+                show(&|s| get(&jd, WordId::new(1, wid), s));
+            } else {
+                show(&|s| get(&loaded, WordId::new(0, wid), s));
+            }
+        }
+        sink.finish();
+        return;
+    }
+    word_level(&mut sink, &mut rng, args.n(26, 300), args.n(40, 400));
+    tokenizer_level(&mut sink, &mut rng, args.n(600, 8000));
+    sink.finish();
 }
